@@ -60,20 +60,33 @@ pub struct Dyn(
     pub std::rc::Rc<dyn std::any::Any>,
     /// `let mut x = target.clone(); x.clone_from(self); x` when the target has the same concrete type (else `self.clone()`)
     pub Box<dyn Fn(&dyn std::any::Any) -> Dyn>,
+    /// `self == other` through the type's own PartialEq ("eq" / "ne"; "na" when the types differ or the type has no PartialEq)
+    pub Box<dyn Fn(&dyn std::any::Any) -> &'static str>,
 );
 
-fn boxed<T: IntoVal + 'static, D: Distribution<T> + Clone + core::fmt::Debug + 'static>(d: D) -> Dyn {
+fn boxed<T: IntoVal + 'static, D: Distribution<T> + Clone + core::fmt::Debug + PartialEq + 'static>(d: D) -> Dyn {
+    boxed_gen::<T, D>(d, Some(|a: &D, b: &D| a == b))
+}
+fn boxed_noeq<T: IntoVal + 'static, D: Distribution<T> + Clone + core::fmt::Debug + 'static>(d: D) -> Dyn {
+    boxed_gen::<T, D>(d, None)
+}
+
+fn boxed_gen<T: IntoVal + 'static, D: Distribution<T> + Clone + core::fmt::Debug + 'static>(d: D, eqf: Option<fn(&D, &D) -> bool>) -> Dyn {
     let rc = std::rc::Rc::new(d);
-    let (a, b, c, e, g, h) = (rc.clone(), rc.clone(), rc.clone(), rc.clone(), rc.clone(), rc);
+    let (a, b, c, e, g, h, q) = (rc.clone(), rc.clone(), rc.clone(), rc.clone(), rc.clone(), rc.clone(), rc);
     Dyn(
         Box::new(move |rng: &mut ScriptRng| a.sample(rng).val()),
-        Box::new(move || boxed::<T, D>((*b).clone())),
+        Box::new(move || boxed_gen::<T, D>((*b).clone(), eqf)),
         Box::new(move || format!("{:?}", c)),
         Box::new(move |rng: &mut ScriptRng, n: usize| (&*e).sample_iter(rng).take(n).map(|v| v.val()).collect()),
         g,
         Box::new(move |target: &dyn std::any::Any| match target.downcast_ref::<D>() {
-            Some(t) => { let mut x: D = t.clone(); x.clone_from(&*h); boxed::<T, D>(x) }
-            None => boxed::<T, D>((*h).clone()),
+            Some(t) => { let mut x: D = t.clone(); x.clone_from(&*h); boxed_gen::<T, D>(x, eqf) }
+            None => boxed_gen::<T, D>((*h).clone(), eqf),
+        }),
+        Box::new(move |other: &dyn std::any::Any| match (eqf, other.downcast_ref::<D>()) {
+            (Some(f), Some(o)) => if f(&*q, o) { "eq" } else { "ne" },
+            _ => "na",
         }),
     )
 }
@@ -96,8 +109,8 @@ where
 {
     let p: Vec<F> = ps.iter().map(|s| F::from_hex(s)).collect();
     match family {
-        "stdnormal" => Ok(boxed::<F, _>(StandardNormal)),
-        "exp1" => Ok(boxed::<F, _>(Exp1)),
+        "stdnormal" => Ok(boxed_noeq::<F, _>(StandardNormal)),
+        "exp1" => Ok(boxed_noeq::<F, _>(Exp1)),
         "normal" => mk!(Normal::new(p[0], p[1])),
         "lognormal" => mk!(LogNormal::new(p[0], p[1])),
         "exp" => mk!(Exp::new(p[0])),
@@ -128,7 +141,7 @@ pub fn build_disc(family: &str, ps: &[&str]) -> Result<Dyn, String> {
     match family {
         "binomial" => mk!(Binomial::new(u(ps[0]), f64::from_hex(ps[1]))),
         "geometric" => mk!(Geometric::new(f64::from_hex(ps[0]))),
-        "stdgeometric" => Ok(boxed::<u64, _>(StandardGeometric)),
+        "stdgeometric" => Ok(boxed_noeq::<u64, _>(StandardGeometric)),
         "hypergeometric" => mk!(Hypergeometric::new(u(ps[0]), u(ps[1]), u(ps[2]))),
         other => Err(format!("badfamily:{}", other)),
     }
@@ -142,7 +155,11 @@ where
 {
     let ws: Vec<W> = match crate::wt::parse_list(&ps.join(",")) { Some(v) => v, None => return Err("badweights".to_string()) };
     match family {
-        "walias" => mk!(rand_distr::weighted::WeightedAliasIndex::new(ws)),
+        "walias" => match catch_unwind(AssertUnwindSafe(|| rand_distr::weighted::WeightedAliasIndex::new(ws))) {
+            Ok(Ok(d)) => Ok(boxed_noeq(d)),
+            Ok(Err(e)) => Err(format!("E:{:?}", e)),
+            Err(_) => Err("ctorpanic".to_string()),
+        },
         "wtree" => mk!(rand_distr::weighted::WeightedTreeIndex::new(ws)),
         other => Err(format!("badfamily:{}", other)),
     }
@@ -420,6 +437,8 @@ pub fn pure(toks: &[&str]) -> String {
             // F<k>:<j> : push `x` where `let mut x = objs[k].clone(); x.clone_from(&objs[j])` - a value that must behave as objs[j]
             "F" => { let c = (objs[a[1]].5)(&*objs[a[0]].4); objs.push(c); specs.push(specs[a[1]].clone()); "ok".to_string() }
             "D" => (objs[a[0]].2)().replace(' ', ""),
+            // E<k>:<j> : objs[k] == objs[j] through PartialEq
+            "E" => (objs[a[0]].6)(&*objs[a[1]].4).to_string(),
             _ => "badop".to_string(),
         }));
         out.push(r.unwrap_or_else(|_| "panic".to_string()));
